@@ -23,17 +23,13 @@ LEAN_MODULES = ["BemppVerif.Props.C19"]
 N = "BemppVerif.C19."
 THEOREMS = [N + t for t in [
     "roundtrip_msh_partial", "zero_domain_gives_ones", "zero_domain_counterexample", "roundtrip_other_formats",
-    "export_node_data_is_evaluation", "export_element_data_is_evaluation_partial", "complex_element_data_rejected",
-    "complex_element_counterexample", "transform_defs", "default_data_type", "import_domain_choice",
-    "import_keeps_triangles",
+    "export_node_data_is_evaluation", "export_element_data_is_evaluation", "complex_element_data_exported",
+    "transform_defs", "default_data_type", "import_domain_choice", "import_keeps_triangles",
 ]]
 PARTIAL = {
     N + "roundtrip_msh_partial": "needs 'some domain index is non-zero': for an all-zero index array the unchanged code "
     "returns all ones (zero_domain_gives_ones for every grid, zero_domain_counterexample on a witness; finding "
     "msh-zero-domain-indices).  meshio's gmsh22 writer/reader is the identity by assumption (oracle: real files).",
-    N + "export_element_data_is_evaluation_partial": "needs 'transformed data has a real dtype': complex element data is "
-    "handed to meshio unwrapped and rejected (complex_element_data_rejected for every grid with != 1 elements, "
-    "complex_element_counterexample on a witness; finding export-complex-element-data).",
 }
 TRUSTED = [
     "meshio 5.3.5 file writers and readers (gmsh22 ASCII/binary, vtu, ply, ...) are modelled as the identity on the "
@@ -775,6 +771,7 @@ def oracle(ctx, deep=False):
                                        write_binary=b)
                         except Exception as e:  # noqa
                             if is_complex and dt == "element":
+                                # regression key of the defect repaired in /repo (known_findings kind "fixed")
                                 res.counterexample("export-complex-element-data",
                                                    "export of complex element data raises "
                                                    f"{type(e).__name__}: {e}"[:200] + " (real data and complex node "
@@ -845,11 +842,11 @@ LEVEL_TEXT = ("Lean 4 theorems on a hand model of the export/import mapping (mes
               "with uint32 arrays the Gmsh round trip returns the same vertices, elements and domain indices provided some "
               "index is non-zero (all-zero arrays provably come back as all ones: recorded finding); every other format "
               "preserves vertices/elements and zeroes the indices; node data = transformed evaluate_on_vertices under "
-              "'data' or 'real'/'imag'; real element data = transformed evaluate_on_element_centers (complex element data "
-              "is provably rejected: recorded finding); transformation definitions, data_type default and the "
+              "'data' or 'real'/'imag'; element data = transformed evaluate_on_element_centers under 'data' or "
+              "'real'/'imag' in one cell block; transformation definitions, data_type default and the "
               "physical->geometrical fallback.  The model is compared on every run with the record the real export passes "
               "to meshio and with import_grid on synthetic reader results; real .msh/.vtu/.ply files are round-tripped by "
               "the oracle.")
-LEVEL_NOTE = ("partial: two hypotheses mark confirmed defects (all-zero domain indices, complex element data); meshio's "
+LEVEL_NOTE = ("partial: one hypothesis marks the recorded finding (all-zero domain indices come back as ones); meshio's "
               "writers/readers and file formats are trusted (oracle only); sqrt/log uninterpreted; evaluate_on_* are inputs.")
 TECHNIQUE = "Lean 4 proof on a hand model (simp/omega/decide +kernel) + differential correspondence by call interception"
